@@ -484,8 +484,8 @@ func (c *CollectionFeature) Clone() Feature {
 	return &CollectionFeature{
 		CollectionID: c.CollectionID,
 		Tags:         c.Tags.Clone(),
-		Keys:         c.Keys,
-		Values:       c.Values,
+		Keys:         append([]interface{}(nil), c.Keys...),
+		Values:       append([]interface{}(nil), c.Values...),
 		sorted:       c.sorted,
 	}
 }
@@ -500,9 +500,9 @@ func (c *CollectionFeature) MergeFrom(other Feature) {
 
 func (c *CollectionFeature) MergeFromCollectionFeature(other *CollectionFeature) {
 	c.CollectionID = other.CollectionID
-	c.Tags = other.Tags
-	c.Keys = other.Keys
-	c.Values = other.Values
+	c.Tags = other.Tags.Clone()
+	c.Keys = append([]interface{}(nil), other.Keys...)
+	c.Values = append([]interface{}(nil), other.Values...)
 	c.sorted = other.sorted
 }
 
